@@ -478,8 +478,10 @@ impl LockFreeMemoryPool {
             let (current_offset, current_gen) = Self::unpack_head(packed);
 
             if current_offset == LIST_TAIL {
-                // Empty bin, need to allocate new memory
-                return self.allocate_new_block(size);
+                // Empty bin, need to allocate new memory. Carve the full bin size, not
+                // just the requested size: the block will later be recycled for any
+                // request that maps to this bin.
+                return self.allocate_new_block(FAST_BIN_SIZES[bin_index]);
             }
             #[cfg(feature = "verif-hooks")]
             crate::verif_hooks::sched_point(crate::verif_hooks::site::LF_ALLOC_AFTER_HEAD_LOAD);
@@ -528,8 +530,8 @@ impl LockFreeMemoryPool {
             }
         }
 
-        // Max retries exceeded, fall back to new allocation
-        self.allocate_new_block(size)
+        // Max retries exceeded, fall back to new allocation (full bin size, see above)
+        self.allocate_new_block(FAST_BIN_SIZES[bin_index])
     }
 
     /// Deallocate to fast bin using lock-free stack
